@@ -288,6 +288,46 @@ func Or(as ...*Term) *Term {
 	if len(out) == 1 {
 		return out[0]
 	}
+	// factor conjuncts common to all disjuncts:  (a&b&c) | (a&b&d)  =  a & b & (c|d).
+	// Path conditions of merged states keep their shared prefix visible this way.
+	conj := func(t *Term) []*Term {
+		if t.Op == OAnd {
+			return t.Args
+		}
+		return []*Term{t}
+	}
+	count := map[int]int{}
+	for _, a := range out {
+		for _, c := range conj(a) {
+			count[c.id]++
+		}
+	}
+	var common []*Term
+	for _, c := range conj(out[0]) {
+		if count[c.id] == len(out) {
+			common = append(common, c)
+		}
+	}
+	if len(common) > 0 {
+		isCommon := map[int]bool{}
+		for _, c := range common {
+			isCommon[c.id] = true
+		}
+		var rests []*Term
+		for _, a := range out {
+			var r []*Term
+			for _, c := range conj(a) {
+				if !isCommon[c.id] {
+					r = append(r, c)
+				}
+			}
+			if len(r) == 0 {
+				return And(common...)
+			}
+			rests = append(rests, And(r...))
+		}
+		return And(append(common, Or(rests...))...)
+	}
 	return TS.mk(OOr, BoolSort, "", nil, out...)
 }
 
@@ -631,6 +671,8 @@ type printer struct {
 	dorder  []string
 	defs    []string
 	usesNIA bool
+	abstractBits bool // variable-by-variable bitwise operators as uninterpreted functions (sound for proving)
+	usedAbstraction bool
 }
 
 func pow2(n int) *big.Int { return new(big.Int).Lsh(big.NewInt(1), uint(n)) }
@@ -949,6 +991,12 @@ func (p *printer) bitopInt(t *Term, a []string, s *Sort) string {
 		and := p.andConst(ys, x, s)
 		return p.wrap1("(- "+xs+" "+and+")", s)
 	}
+	if p.abstractBits {
+		p.usedAbstraction = true
+		nm := fmt.Sprintf("|bitop%d_%d|", t.Op, s.W)
+		p.declare(nm, fmt.Sprintf("(declare-fun %s (Int Int) Int)", nm))
+		return "(" + nm + " " + xs + " " + ys + ")"
+	}
 	if s.W > 32 {
 		panic(needBV{fmt.Sprintf("bitwise operator on two variable %d-bit operands", s.W)})
 	}
@@ -1061,6 +1109,14 @@ func (p *printer) compoundBV(t *Term, a []string, s *Sort) string {
 
 // Query renders "hyps ∧ ¬goal" (or just the conjunction of asserts when goal is nil).
 // getvals are terms whose values are requested when the answer is sat.
+// AbstractBits: when set, Query renders bitwise operators on two variable operands as
+// uninterpreted functions. An unsat answer is then still a proof (the abstraction only forgets
+// facts); any other answer must be re-checked with the exact encoding.
+var AbstractBits bool
+
+// QueryUsedAbstraction reports whether the last Query call actually abstracted something.
+var QueryUsedAbstraction bool
+
 func Query(mode Mode, asserts []*Term, getvals []*Term) (text string, err error) {
 	defer func() {
 		if r := recover(); r != nil {
@@ -1071,7 +1127,8 @@ func Query(mode Mode, asserts []*Term, getvals []*Term) (text string, err error)
 			panic(r)
 		}
 	}()
-	p := &printer{mode: mode, done: map[int]string{}, decls: map[string]string{}}
+	p := &printer{mode: mode, done: map[int]string{}, decls: map[string]string{}, abstractBits: AbstractBits && mode == ModeInt}
+	defer func() { QueryUsedAbstraction = p.usedAbstraction }()
 	var body []string
 	for _, a := range asserts {
 		r := p.ref(a)
